@@ -1,3 +1,6 @@
-spec fn params_ok(p: Parameters) -> bool {
-    0 < p.max_initial_size@ <= 252 && 0 < p.max_subsequent_size@ <= 64008
-}
+spec fn lim0(p: Parameters) -> int { p.max_initial_size@ as int }
+spec fn lim1(p: Parameters) -> int { p.max_subsequent_size@ as int }
+// admissible chunk limits: a one-byte header needs size < 253, a two-byte header size < 253^2; m0 <= m1
+// is what the length bound of C02 needs (252 <= 64008 in production)
+spec fn lims_ok(m0: int, m1: int) -> bool { 0 < m0 <= 252 && 0 < m1 <= 64008 }
+spec fn params_ok(p: Parameters) -> bool { lims_ok(lim0(p), lim1(p)) }
